@@ -145,20 +145,24 @@ reg("C12",
 # clauses added after seeding round 5 (appended to the level text of the property)
 EXTRA = {
     "C01": " Enumerated families added later: foreign elements named like HTML structure elements, integration point x mis-nested formatting element x one following token, newlines in and after pre/listing/textarea.",
-    "C02": " A case may have another document parsed by html5lib.parse() in the same process before it (tokens a tree builder modified must not leak into later tokenizer output) and may arrive as an io.StringIO whose beginning was already read.",
-    "C03": " Byte documents whose declaration lies behind the prescan window are enumerated over an alphabet of ISO-2022-JP escape sequences and <meta> declarations x encoding hints (bytes that are markup in one decoding pass and text in the other).",
+    "C02": " A case may have another document parsed by html5lib.parse() in the same process before it (tokens a tree builder modified must not leak into later tokenizer output) and may arrive as an io.StringIO whose beginning was already read. Token granularity: html5lib's raw character-token boundaries must be the same for one-piece and short-read input; a case may also be preceded by an ABANDONED strict parse in the same process.",
+    "C03": " Byte documents whose declaration lies behind the prescan window are enumerated over an alphabet of ISO-2022-JP escape sequences and <meta> declarations x encoding hints (bytes that are markup in one decoding pass and text in the other). Length families may carry a counter (thousands of DISTINCT formatting elements / attributes inside marker scopes that are then closed).",
     "C05": " Texts contain <meta> declarations of other encodings followed by non-ASCII text (a declaration must not matter once the encoding is certain).",
-    "C07": " A second shard enumerates EVERY Unicode scalar value (runs of 127 consecutive code points as text and as attribute value) through two narrow output encodings and reads it back.",
+    "C07": " A second shard enumerates EVERY Unicode scalar value (runs of 127 consecutive code points as text and as attribute value) through two narrow output encodings and reads it back. A 'family' shard sends hand-written conforming documents (one or more per optional-tag rule, empty head/body and comment combinations) through four option records.",
     "C08": " Re-render leg: the caller's own token list object is rendered once with alphabetical_attributes and then again by the judged run; nothing of it may be missing the second time.",
     "C10": " The sanitized output may also be re-read as BYTES without any encoding information (BOM / <meta> prescan / default decide), with quotes, <meta> look-alikes and ISO-2022-JP escapes inside attribute values in the vocabulary.",
-    "C11": " The etree walker is also taken for a second ElementTree implementation (pure-Python module loaded beside the accelerated one), requested after the default walker: same document, same stream. Doctype identifiers are compared as they are ('' is not None).",
-    "C12": " A fifth parser kind uses getTreeBuilder('etree', implementation=<second ElementTree implementation>) without further keywords; the class of the returned object is part of the compared result.",
-    "C13": " The conforming documents are also run under the eight other DOCTYPEs a conforming document may carry; the grammar includes empty body elements and a comment after </body>.",
+    "C11": " The etree walker is also taken for a second ElementTree implementation (pure-Python module loaded beside the accelerated one), requested after the default walker: same document, same stream. Doctype identifiers are compared as they are ('' is not None). The recorded finding about a void-listed element with children names event-source only (the one such element the unchanged parser gives children).",
+    "C12": " A fifth parser kind uses getTreeBuilder('etree', implementation=<second ElementTree implementation>) without further keywords; the class of the returned object is part of the compared result. Rule 'rewalk': ONE tree walker object (over a fragment or a single element) rendered 2-4 times with in-place editing filters in between; every rendering equals a brand-new walker's.",
+    "C13": " The conforming documents are also run under the eight other DOCTYPEs a conforming document may carry; the grammar includes empty body elements and a comment after </body>. A 'family' shard runs hand-written conforming documents (markup entry; one or more per optional-tag rule x heads x tails, document-level empty head/body/comment combinations) with both walkers, independent of generator statistics.",
     "C15": " Both parses may run with scripting=True (documents without a declaration inside head noscript and without unencodable text); every Unicode scalar value is written under narrow encodings in runs of 127 and read back.",
-    "C16": " Absolute leg: for a document on which html5lib records no error, the reference tree constructor must not have passed any parse-error step of the standard (one-directional: it reports missing errors); exercised by conforming documents with one mutation (cut, DOCTYPE variant, inserted token). Byte-input shard: strict vs. non-strict when the first decoding pass is abandoned for a re-parse.",
-    "C17": " A second leg is judged against the tree (own traversal) instead of the walker's stream: all non-whitespace characters of the tree come out in order, and text the tree places outside preserve elements keeps no tab/LF/FF/CR.",
+    "C16": " Absolute leg: for a document on which html5lib records no error, the reference tree constructor must not have passed any parse-error step of the standard (one-directional: it reports missing errors); exercised by conforming documents with one mutation (cut, DOCTYPE variant, inserted token). Byte-input shard: strict vs. non-strict when the first decoding pass is abandoned for a re-parse. Byte input: every recorded position is validated against the text as finally decoded; lexical leg: a conforming document with ONE tokenizer-level mistake at the end of body (51 snippets, each a parse error by the standard) must record an error.",
+    "C17": " A second leg is judged against the tree (own traversal) instead of the walker's stream: all non-whitespace characters of the tree come out in order, and text the tree places outside preserve elements keeps no tab/LF/FF/CR. The filtered dom stream must not depend on how the text arrives (same text through a short-read stream).",
     "C18": " The serializer clause also goes through html5lib.serializer.serialize(), preceded by calls with other options of equal values.",
-    "C19": " to_sax is also run over getTreeWalker('etree', implementation=<second ElementTree implementation>) requested after the default walker; the events must equal the default implementation's.",
+    "C19": " to_sax is also run over getTreeWalker('etree', implementation=<second ElementTree implementation>) requested after the default walker; the events must equal the default implementation's. to_sax is also run over a SUBTREE walk (an element with following siblings) with both walkers.",
+    "C04": " Validity predicate on every etree result: no two elements hold the same attribute mapping object.",
+    "C09": " Custom lists are subsets of nine constructor arguments and SUPERSETS of attr_val_is_uri (a caller adds attributes it wants scheme-checked).",
+    "C14": " References in text directly inside table / tr / tbody (pending table text), select and caption.",
+    "C20": " The shared filter object also coerces public identifiers and comments between names; names may contain non-ASCII decimal digits after 'U'.",
 }
 
 NOT_APPLICABLE = {}
